@@ -75,12 +75,8 @@ Qed.
 
 (* ---- readable, unpacked ---------------------------------------------------------- *)
 Lemma headers_ok_inv (h : headers) : headers_ok h = true ->
-  Forall (fun nv => name_ok (fst nv) = true) h /\ NoDup (map (fun nv => lower (fst nv)) h).
-Proof.
-  unfold headers_ok. rewrite andb_true_iff. intros [H1 H2]. split.
-  - apply Forall_forall. rewrite forallb_forall in H1. exact H1.
-  - apply distinct_iff. exact H2.
-Qed.
+  Forall (fun nv => name_ok (fst nv) = true) h.
+Proof. unfold headers_ok. intros H1. apply Forall_forall. rewrite forallb_forall in H1. exact H1. Qed.
 
 Lemma readable_inv (e : exchange) : readable e = true ->
   validate_fallback (e_uri e) = (true, false) /\ headers_ok (e_resph e) = true /\
@@ -128,6 +124,26 @@ Proof.
   apply Hx. apply in_map_iff. exists y. split; [apply Hinj; exact E|exact Hy].
 Qed.
 
+(* EncodeMap succeeded: the keys, hence the lower-cased names, are distinct *)
+Lemma enc_map_ok_nodup (P : list (bytes * bytes)) (out : bytes) :
+  enc_map (map epair P) = Ok out -> NoDup (map fst P).
+Proof.
+  intros H. apply distinct_iff. destruct (distinct (map fst P)) eqn:E; [reflexivity|]. exfalso.
+  assert (Herr : enc_map (map epair P) = Err).
+  { apply enc_map_dup. intros Hnd. rewrite map_map in Hnd.
+    assert (Hn : NoDup (map fst P)).
+    { apply (NoDup_map_via (fun kv => fst (epair kv)) fst P Hnd).
+      intros x y Exy. unfold epair. cbn [fst]. rewrite Exy. reflexivity. }
+    apply distinct_iff in Hn. congruence. }
+  congruence.
+Qed.
+
+Lemma NoDup_app_tail {A} (a b : list A) : NoDup (a ++ b) -> NoDup b.
+Proof. induction a as [|x a IH]; [trivial|]. cbn [app]. intros H. inversion H; subst. apply IH. assumption. Qed.
+
+Lemma raw_names (h : headers) : map fst (raw_pairs h) = map (fun nv => lower (fst nv)) h.
+Proof. unfold raw_pairs. rewrite map_map. reflexivity. Qed.
+
 Lemma fields_fold (h : headers) : NoDup (map (fun nv => lower (fst nv)) h) ->
   fold_left add_field (map raw_pair (isort lt_name h)) [] = canon_headers h.
 Proof.
@@ -158,16 +174,19 @@ Proof. apply Permutation_length, isort_perm. Qed.
 
 Lemma read_response_map (e : exchange) (rs rest : bytes) (s : hstate) (fuel : nat) (B : N) :
   Forall (fun nv => name_ok (fst nv) = true) (e_resph e) ->
-  NoDup (map (fun nv => lower (fst nv)) (e_resph e)) ->
   (-9223372036854775808 <= e_status e < 9223372036854775808)%Z ->
   encode_response_map e = Ok rs -> lenN rs <= B -> B < two63 ->
   (List.length rs < fuel)%nat -> h_resp s = [] ->
-  (let* (m, r) := decode_map_header (rs ++ rest) in dec_response_map fuel m r s)
+  exists m r, decode_map_header (rs ++ rest) = Ok (m, r) /\
+  dec_response_map fuel m r s
   = Ok ({| h_method := h_method s; h_uri := h_uri s; h_req := h_req s; h_status := e_status e;
            h_resp := canon_headers (e_resph e); h_taint := h_taint s |}, rest).
 Proof.
-  intros Hnames Hnd Hz Henc HB HB63 Hfuel Hs0.
+  intros Hnames Hz Henc HB HB63 Hfuel Hs0.
   rewrite encode_response_map_pairs in Henc.
+  assert (Hnd : NoDup (map (fun nv => lower (fst nv)) (e_resph e))).
+  { pose proof (enc_map_ok_nodup _ _ Henc) as Hn. unfold resp_pairs in Hn. cbn [map] in Hn.
+    inversion Hn; subst. rewrite <- raw_names. assumption. }
   destruct (written_map_sizes _ _ B Henc HB) as [Hcnt Hsz].
   pose proof (enc_map_pairs_ok _ _ Henc) as Ers.
   set (P := resp_pairs e) in *. set (S' := isort pair_lt P) in *.
@@ -175,7 +194,8 @@ Proof.
   { destruct (enc_pairs_bounds S') as [H1 _]. subst rs. rewrite app_length.
     rewrite !lenN_length in H1. lia. }
   rewrite Ers, <- app_assoc.
-  rewrite decode_encode_map_header by (unfold two63, two64 in *; lia). cbn [bind].
+  exists (lenN P), (enc_pairs S' ++ rest).
+  split; [apply decode_encode_map_header; unfold two63, two64 in *; lia|].
   replace (lenN P) with (lenN S') by (apply isort_lenN).
   pose proof (raw_pairs_facts _ Hnames) as Hraw.
   assert (HP : Forall (fun kv => pair_readable kv /\ (is_st kv = true -> atoi (snd kv) <> None)) P).
@@ -208,17 +228,21 @@ Qed.
 Lemma read_request_map (e : exchange) (rq rest : bytes) (s : hstate) (fuel : nat) (B : N) :
   e_ver e <> V1b3 ->
   Forall (fun nv => name_ok (fst nv) = true) (e_reqh e) ->
-  NoDup (map (fun nv => lower (fst nv)) (e_reqh e)) ->
   validate_fallback (e_uri e) = (true, false) ->
   encode_request_map e = Ok rq -> lenN rq <= B -> B < two63 ->
   (List.length rq < fuel)%nat -> h_req s = [] ->
   (e_ver e = V1b2 -> h_uri s = e_uri e) ->
-  (let* (m, r) := decode_map_header (rq ++ rest) in dec_request_map fuel (e_ver e) m r s)
+  exists m r, decode_map_header (rq ++ rest) = Ok (m, r) /\
+  dec_request_map fuel (e_ver e) m r s
   = Ok ({| h_method := e_method e; h_uri := e_uri e; h_req := canon_headers (e_reqh e);
            h_status := h_status s; h_resp := h_resp s; h_taint := h_taint s |}, rest).
 Proof.
-  intros Hv Hnames Hnd Hurl Henc HB HB63 Hfuel Hs0 Hu0.
+  intros Hv Hnames Hurl Henc HB HB63 Hfuel Hs0 Hu0.
   rewrite encode_request_map_pairs in Henc.
+  assert (Hnd : NoDup (map (fun nv => lower (fst nv)) (e_reqh e))).
+  { pose proof (enc_map_ok_nodup _ _ Henc) as Hn. unfold req_pairs in Hn. cbn [map] in Hn.
+    inversion Hn as [|? ? _ Hn']; subst. rewrite map_app in Hn'. apply NoDup_app_tail in Hn'.
+    rewrite <- raw_names. exact Hn'. }
   destruct (written_map_sizes _ _ B Henc HB) as [Hcnt Hsz].
   pose proof (enc_map_pairs_ok _ _ Henc) as Erq.
   set (P := req_pairs e) in *. set (S' := isort pair_lt P) in *.
@@ -226,7 +250,8 @@ Proof.
   { destruct (enc_pairs_bounds S') as [H1 _]. subst rq. rewrite app_length.
     rewrite !lenN_length in H1. lia. }
   rewrite Erq, <- app_assoc.
-  rewrite decode_encode_map_header by (unfold two63, two64 in *; lia). cbn [bind].
+  exists (lenN P), (enc_pairs S' ++ rest).
+  split; [apply decode_encode_map_header; unfold two63, two64 in *; lia|].
   replace (lenN P) with (lenN S') by (apply isort_lenN).
   pose proof (raw_pairs_facts _ Hnames) as Hraw.
   set (U := match e_ver e with V1b1 => [(key_url, e_uri e)] | _ => [] end).
@@ -382,12 +407,12 @@ Lemma decode_written_headers (e : exchange) (hdr : bytes) :
   decode_exchange_headers (e_ver e) hdr (start_state e) = Ok (final_state e).
 Proof.
   intros Hr Henc Hlen. destruct (readable_inv e Hr) as (Hurl & Hs & Hz & Ht & Hv).
-  destruct (headers_ok_inv _ Hs) as [Hsn Hsd].
+  pose proof (headers_ok_inv _ Hs) as Hsn.
   destruct (encode_headers_inv e hdr Henc) as (rs & Ers & Hshape).
   unfold decode_exchange_headers. cbv zeta.
   destruct (e_ver e) eqn:Ev; cbn [has_request].
   - (* b1 *)
-    destruct Hshape as (rq & Erq & Ehdr). destruct (headers_ok_inv _ Hv) as [Hqn Hqd].
+    destruct Hshape as (rq & Erq & Ehdr). pose proof (headers_ok_inv _ Hv) as Hqn.
     assert (L : lenN hdr = lenN (enc_array_header 2) + lenN rq + lenN rs)
       by (rewrite Ehdr, !lenN_app; lia).
     assert (LL : List.length hdr = (List.length (enc_array_header 2) + List.length rq + List.length rs)%nat)
@@ -395,14 +420,17 @@ Proof.
     remember (S (List.length hdr)) as fuel eqn:Ef.
     rewrite Ehdr. rewrite decode_encode_array_header by (unfold two64; lia). cbn [bind].
     change (negb (2 =? 2)) with false. cbv iota.
-    pose proof (read_request_map e rq rs (start_state e) fuel 16777216) as RQ.
-    rewrite Ev in RQ. rewrite RQ; try assumption; try discriminate; try reflexivity;
-      try (unfold two63; lia).
-    cbn [bind].
-    pose proof (read_response_map e rs [] _ fuel 16777216 Hsn Hsd Hz Ers) as RS.
-    rewrite app_nil_r in RS. rewrite RS; try reflexivity; try (unfold two63; lia).
+    destruct (read_request_map e rq rs (start_state e) fuel 16777216) as (m & r & D1 & D2);
+      try assumption; try (rewrite Ev; discriminate); try reflexivity; try (unfold two63; lia).
+    rewrite Ev in D2. rewrite D1. cbn [bind]. rewrite D2. cbn [bind].
+    destruct (read_response_map e rs [] {| h_method := e_method e; h_uri := e_uri e;
+        h_req := canon_headers (e_reqh e); h_status := h_status (start_state e);
+        h_resp := h_resp (start_state e); h_taint := h_taint (start_state e) |}
+        fuel 16777216 Hsn Hz Ers) as (m2 & r3 & D3 & D4);
+      try reflexivity; try (unfold two63; lia).
+    rewrite app_nil_r in D3. rewrite D3. cbn [bind]. rewrite D4. reflexivity.
   - (* b2 *)
-    destruct Hshape as (rq & Erq & Ehdr). destruct (headers_ok_inv _ Hv) as [Hqn Hqd].
+    destruct Hshape as (rq & Erq & Ehdr). pose proof (headers_ok_inv _ Hv) as Hqn.
     assert (L : lenN hdr = lenN (enc_array_header 2) + lenN rq + lenN rs)
       by (rewrite Ehdr, !lenN_app; lia).
     assert (LL : List.length hdr = (List.length (enc_array_header 2) + List.length rq + List.length rs)%nat)
@@ -410,22 +438,26 @@ Proof.
     remember (S (List.length hdr)) as fuel eqn:Ef.
     rewrite Ehdr. rewrite decode_encode_array_header by (unfold two64; lia). cbn [bind].
     change (negb (2 =? 2)) with false. cbv iota.
-    pose proof (read_request_map e rq rs (start_state e) fuel 16777216) as RQ.
-    rewrite Ev in RQ. rewrite RQ; try assumption; try discriminate; try reflexivity;
-      try (unfold two63; lia).
-    2:{ intros _. unfold start_state. rewrite Ev. reflexivity. }
-    cbn [bind].
-    pose proof (read_response_map e rs [] _ fuel 16777216 Hsn Hsd Hz Ers) as RS.
-    rewrite app_nil_r in RS. rewrite RS; try reflexivity; try (unfold two63; lia).
+    destruct (read_request_map e rq rs (start_state e) fuel 16777216) as (m & r & D1 & D2);
+      try assumption; try (rewrite Ev; discriminate); try reflexivity; try (unfold two63; lia).
+    { intros _. unfold start_state. rewrite Ev. reflexivity. }
+    rewrite Ev in D2. rewrite D1. cbn [bind]. rewrite D2. cbn [bind].
+    destruct (read_response_map e rs [] {| h_method := e_method e; h_uri := e_uri e;
+        h_req := canon_headers (e_reqh e); h_status := h_status (start_state e);
+        h_resp := h_resp (start_state e); h_taint := h_taint (start_state e) |}
+        fuel 16777216 Hsn Hz Ers) as (m2 & r3 & D3 & D4);
+      try reflexivity; try (unfold two63; lia).
+    rewrite app_nil_r in D3. rewrite D3. cbn [bind]. rewrite D4. reflexivity.
   - (* b3 *)
     subst hdr. destruct Hv as [Hm Hq].
-    pose proof (read_response_map e rs []
+    destruct (read_response_map e rs []
       {| h_method := s2b "GET"; h_uri := h_uri (start_state e); h_req := h_req (start_state e);
          h_status := h_status (start_state e); h_resp := h_resp (start_state e);
          h_taint := h_taint (start_state e) |}
-      (S (List.length rs)) 16777216 Hsn Hsd Hz Ers) as RS.
-    rewrite app_nil_r in RS. rewrite RS; try reflexivity; try (unfold two63; lia).
-    cbn [bind]. f_equal. unfold final_state, start_state. rewrite Ev, Hm, Hq. reflexivity.
+      (S (List.length rs)) 16777216 Hsn Hz Ers) as (m2 & r3 & D3 & D4);
+      try reflexivity; try (unfold two63; lia).
+    rewrite app_nil_r in D3. rewrite D3. cbn [bind]. rewrite D4. cbn [bind]. f_equal.
+    unfold final_state, start_state. rewrite Ev, Hm, Hq. reflexivity.
 Qed.
 
 (* ---- C02 write_read ----------------------------------------------------------------------- *)
@@ -541,11 +573,10 @@ Proof.
   unfold write, encode_exchange_headers. rewrite Hq, Hs. reflexivity.
 Qed.
 
-Lemma name_ok_canonical (n : bytes) : name_ok n = true -> name_ok (canonical_key (lower n)) = true.
+Lemma canon_go_tchar (s : bytes) : forall u,
+  forallb is_tchar s = true -> forallb is_tchar (canon_go s u) = true.
 Proof.
-  intros Hn. unfold name_ok in *. pose proof (name_lower_tchar n Hn) as Hl.
-  unfold canonical_key. rewrite Hl. clear Hn. revert Hl. generalize (lower n). intros s.
-  generalize true. induction s as [|c r IH]; intros u Hs; [reflexivity|].
+  induction s as [|c r IH]; intros u Hs; [reflexivity|].
   cbn [forallb canon_go] in *. apply andb_true_iff in Hs. destruct Hs as [Hc Hr].
   rewrite (IH _ Hr), andb_true_r.
   unfold is_tchar, is_digit_b, is_lower_b, is_upper_b in *. cbn [existsb] in *.
@@ -553,16 +584,19 @@ Proof.
     repeat match goal with |- context [if ?b then _ else _] => destruct b eqn:? end; lia.
 Qed.
 
+Lemma name_ok_canonical (n : bytes) : name_ok n = true -> name_ok (canonical_key (lower n)) = true.
+Proof.
+  intros Hn. unfold name_ok in *. pose proof (name_lower_tchar n Hn) as Hl.
+  unfold canonical_key. rewrite Hl. apply canon_go_tchar. exact Hl.
+Qed.
+
 Lemma headers_ok_canon (h : headers) : headers_ok h = true -> headers_ok (canon_headers h) = true.
 Proof.
-  intros H. destruct (headers_ok_inv h H) as [Hn Hd]. unfold headers_ok. apply andb_true_iff. split.
-  - apply forallb_forall. intros nv Hin. unfold canon_headers in Hin. apply in_map_iff in Hin.
-    destruct Hin as [[n vs] [E Hin]]. subst nv. cbn [canon_field fst].
-    apply name_ok_canonical. rewrite Forall_forall in Hn.
-    apply (Hn (n, vs)). eapply Permutation_in; [apply isort_perm|exact Hin].
-  - apply distinct_iff. unfold canon_headers. rewrite map_map.
-    erewrite map_ext; [|intros [n vs]; cbn [canon_field fst]; rewrite lower_canonical_key, lower_idem; reflexivity].
-    eapply Permutation_NoDup; [apply Permutation_map, Permutation_sym, isort_perm|]. exact Hd.
+  intros H. pose proof (headers_ok_inv h H) as Hn. unfold headers_ok.
+  apply forallb_forall. intros nv Hin. unfold canon_headers in Hin. apply in_map_iff in Hin.
+  destruct Hin as [[n vs] [E Hin]]. subst nv. cbn [canon_field fst].
+  apply name_ok_canonical. rewrite Forall_forall in Hn.
+  apply (Hn (n, vs)). eapply Permutation_in; [apply isort_perm|exact Hin].
 Qed.
 
 Theorem readable_canon (e : exchange) : readable e = true -> readable (canon_exchange e) = true.
